@@ -3,6 +3,10 @@ From Coq Require Import List Bool Arith Field.
 Import ListNotations.
 From SFV Require Import C15.Model.
 
+Lemma op_apply_n_repeat {K : Type} (conv : K -> K) (stored : K) (n : nat) :
+  op_apply_n conv stored n = (stored, repeat (conv stored) n).
+Proof. induction n; simpl; [reflexivity | rewrite IHn; reflexivity]. Qed.
+
 Section P.
 Context {K : Type} (F : Fld K).
 Hypothesis FT : field_theory (f0 F) (f1 F) (fadd F) (fmul F) (fsub F) (fopp F) (fdiv F) (finv F) (@eq K).
